@@ -243,7 +243,17 @@ func TestCheck(t *testing.T) {
 		}
 		cfgs := farm(tier)
 		if race {
-			cfgs = cfgs[:4]
+			// disk backends read the value bytes while writing them: a slice that
+			// block processing modifies in place races with the flush.
+			cfgs = []repCfg{cfgs[1], cfgs[3],
+				{"bolt-gc-latest-concurrent", "bolt", func(c *config.Blockchain) {
+					c.RemoveUntraceableBlocks = true
+					c.KeepOnlyLatestState = true
+					c.GarbageCollectionPeriod = 2
+				}, "k", "none", true},
+				{"level-gc-concurrent", "level", func(c *config.Blockchain) { c.RemoveUntraceableBlocks = true; c.GarbageCollectionPeriod = 3 }, "k", "none", false},
+				{"level-latest-concurrent", "level", func(c *config.Blockchain) { c.KeepOnlyLatestState = true }, "k", "none", true},
+			}
 		}
 		var wg sync.WaitGroup
 		var mu sync.Mutex
